@@ -103,6 +103,16 @@ func groupLower(fs []field) []field {
 	return out
 }
 
+// h3FinalFields: the regular fields of the final response as the origin writes them (lower-case, grouped)
+func (x *exch) h3FinalFields() []field {
+	a, o := x.A, x.H3
+	final := append([]field{}, a.Fields...)
+	if o.Declare {
+		final = append(final, field{"content-length", fmt.Sprint(len(a.Body))})
+	}
+	return groupLower(final)
+}
+
 func (x *exch) coqH3() string {
 	a, o := x.A, x.H3
 	var heads []string
@@ -137,6 +147,10 @@ func (x *exch) coqH3() string {
 	if sendTrailers {
 		tr = "(Some " + coqFields(groupLower(a.Trailers)) + ")"
 	}
-	return fmt.Sprintf("(H3Case %s %s %s %s %s %s %s %s %s)", hk.CoqBool(x.Method == "HEAD"), a.coqBody(), hk.CoqList(heads),
-		hk.CoqList(parts), tr, hk.CoqBool(x.hasBody()), coqMode[x.Mode], coqPat(x.Pat), x.coqObs())
+	short := "None"
+	if o.Short >= 0 && o.Raw {
+		short = fmt.Sprintf("(Some %d%%N)", o.Short)
+	}
+	return fmt.Sprintf("(H3Case %s %s %s %s %s %s %s %s %s %s)", hk.CoqBool(x.Method == "HEAD"), a.coqBody(), hk.CoqList(heads),
+		hk.CoqList(parts), tr, short, hk.CoqBool(x.hasBody()), coqMode[x.Mode], coqPat(x.Pat), x.coqObs())
 }
